@@ -19,12 +19,15 @@ VARIABLES kind, st, assigned, last, n, hist
 vars == <<kind, st, assigned, last, n, hist>>
 
 Kinds == {"len", "rep", "auto"}
-Tracked == {<<>>, <<65>>, <<65, 66>>}
 DescVals == {0, 1, 7, 300}
 Raws(k) == IF k = "auto" THEN {<<1, 0>>, <<2, 65, 0>>, <<9, 65, 66, 0>>, <<1>>}
            ELSE {<<0>>, <<1, 65>>, <<2, 65, 66>>, <<3, 65>>, <<>>}
 
-Computed(k, t) == IF k = "auto" THEN Len(t) + 1 ELSE Len(t)
+\* BAD: the tracked field holds something the descriptor's function cannot work on (None): reading the attribute raises
+\* (written -2 here) until it is assigned or the tracked field is repaired; nothing of the failure may stay behind
+BAD == <<-1>>
+Computed(k, t) == IF t = BAD THEN -2 ELSE IF k = "auto" THEN Len(t) + 1 ELSE Len(t)
+Tracked == {<<>>, <<65>>, <<65, 66>>, BAD}
 Read(k, s) == IF s.flag = "F" THEN s.hidden ELSE Computed(k, s.tracked)
 
 Fresh(k, kw) == IF kw = -1 THEN [flag |-> "unset", hidden |-> 0, tracked |-> <<>>]
@@ -33,7 +36,8 @@ Fresh(k, kw) == IF kw = -1 THEN [flag |-> "unset", hidden |-> 0, tracked |-> <<>
 \* pack: the sync hook writes what the attribute reads as into the hidden field, then the fields are serialised
 EncTracked(k, t) == IF k = "auto" THEN t \o <<0>> ELSE t
 PackOf(k, s) == LET v == Read(k, s) IN
-                IF v < 0 \/ v > 255 THEN [ok |-> FALSE, out |-> <<>>, s |-> [s EXCEPT !.hidden = v]]
+                IF s.tracked = BAD THEN [ok |-> FALSE, out |-> <<>>, s |-> s]      \* (the hook or the tracked field's own encoder raises)
+                ELSE IF v < 0 \/ v > 255 THEN [ok |-> FALSE, out |-> <<>>, s |-> [s EXCEPT !.hidden = v]]
                 ELSE [ok |-> TRUE, out |-> <<v>> \o EncTracked(k, s.tracked), s |-> [s EXCEPT !.hidden = v]]
 
 \* unpack: [ok, s]; the parsed value of the described field lands in the hidden field, the flag is untouched (unset)
@@ -73,7 +77,7 @@ Spec == Init /\ [][Next]_vars
 Inv_C17_Read == Read(kind, st) = IF assigned # -1 THEN assigned ELSE Computed(kind, st.tracked)
 \* pack() serialises exactly what the attribute reads as at that moment (and fails iff that does not fit the field)
 Inv_C17_Pack == last.op = "pack" =>
-                   /\ last.ok <=> (Read(kind, st) >= 0 /\ Read(kind, st) <= 255)
+                   /\ last.ok <=> (Read(kind, st) >= 0 /\ Read(kind, st) <= 255 /\ st.tracked # BAD)
                    /\ last.ok => (last.out[1] = Read(kind, st) /\ SubSeq(last.out, 2, Len(last.out)) = EncTracked(kind, st.tracked))
 \* packing does not change what the attribute reads as
 Prop_C17_PackKeepsRead == [][last'.op = "pack" => Read(kind, st') = Read(kind, st)]_vars
